@@ -1,34 +1,52 @@
 (* Properties/C09.v — The cursor-style reader is a faithful state machine over the message.
-   Proved: (1) the error/exhaustion latch; (2) the SECTION TRACKER — counters, lazy section
-   offsets, seek — refines the counting machine of Spec/LinearPass.v for every sequence of
-   sequential reads and seeks, whatever the offsets of the items are.
-   Not proved: that the reader drives the tracker with the offsets of the items the linear pass
-   parses (the composition of (2) with the parsers, i.e. every returned item of every conforming
-   script): that part is decided by the scripts stream, where the extracted abstract reader is
-   the oracle (DESIGN.md 5 C09 and 12). *)
+   Proved: (1) the error/exhaustion latch at full strength (every sequential call, every state the
+   protocol can reach); (2) the SECTION TRACKER — counters, lazy section offsets, seek — refines
+   the counting machine of Spec/LinearPass.v for every sequence of sequential reads and seeks,
+   whatever the offsets of the items are; (3) the parsers are the spec's items; (4) COMPOSITION:
+   on every message the linear pass parses completely, every allowed sequence of question reads,
+   record reads and seeks to known sections returns exactly the prescribed items and ends in the
+   prescribed state.
+   Not proved (decided by the scripts stream, where the extracted abstract reader is the oracle,
+   DESIGN.md 5 C09 and 12): the composition on messages the pass parses only partly, the
+   owned/typed flavours inside whole scripts, seek-by-skipping. *)
 From RsdnsModel Require Import Base Cursor Names Labels Header Tracker RData Reader.
 From RsdnsModel.Spec Require Import LinearPass.
-From RsdnsModel.Proofs Require Import Latch TrackerRefine SpecExec ParseSpec ReaderRefine.
+From RsdnsModel.Proofs Require Import Latch ReaderTotal LatchFull TrackerRefine SpecExec ParseSpec ReaderRefine.
 Open Scope N_scope.
 
-(* after the first decode error (or exhaustion) the reader stays exhausted: every sequential call
-   and every seek returns ReaderDone without changing the state; all remaining-counts are 0 *)
-Theorem C09_stays_exhausted_partial : forall msg r, r_done r = true ->
+(* An exhausted reader (after the first decode error, or after exhaustion) stays exhausted: every
+   sequential call — the data calls included — and every seek returns ReaderDone without changing
+   the state; all remaining-counts are 0. *)
+Theorem C09_stays_exhausted : forall msg r, r_done r = true ->
   (forall single as_ref, rd_question msg single as_ref r = (r, Err ReaderDone)) /\
   rd_skip_questions msg r = (r, Err ReaderDone) /\
   rd_marker msg r = (r, Err ReaderDone) /\ rd_header_ref msg r = (r, Err ReaderDone) /\
   (forall nk, rd_header_n msg nk r = (r, Err ReaderDone)) /\
+  (forall mk, pos (r_cur r) = rdata_pos mk ->
+     rd_skip_data mk r = (r, Err ReaderDone) /\ rd_data_bytes msg mk r = (r, Err ReaderDone) /\
+     (forall ty, read_rdata msg ty (m_rdlen mk) <> None -> rd_data msg ty mk r = (r, Err ReaderDone)) /\
+     rd_opt mk r = (r, Err ReaderDone)) /\
   (forall s, rd_seek msg s r = (r, Err ReaderDone)) /\
   rd_questions_count r = Ok (ONum 0) /\ rd_records_count r = Ok (ONum 0) /\
   (forall s, rd_records_count_in s r = Ok (ONum 0)).
-Proof. exact done_sticky. Qed.
+Proof. exact done_sticky_full. Qed.
 
-Theorem C09_error_latches_partial : forall msg r, r_done r = false ->
-  (is_ok (snd (rd_marker msg r)) = false -> r_done (fst (rd_marker msg r)) = true) /\
-  (is_ok (snd (rd_header_ref msg r)) = false -> r_done (fst (rd_header_ref msg r)) = true) /\
-  (forall nk, is_ok (snd (rd_header_n msg nk r)) = false -> r_done (fst (rd_header_n msg nk r)) = true) /\
-  (is_ok (snd (rd_skip_questions msg r)) = false -> r_done (fst (rd_skip_questions msg r)) = true).
-Proof. exact error_latches. Qed.
+(* [latched p]: if the call did not return Ok, the reader it leaves is exhausted.  In every state
+   the documented protocol can reach (RInv: Properties/C01.v) EVERY failing sequential call latches:
+   questions of both flavours, skip_questions, the three header flavours, the four data calls
+   (given the marker of the preceding header call), header(), and seek — except that a seek refused
+   with RecordsSectionOffsetUnknown changes nothing at all. *)
+Theorem C09_error_latches : forall msg r, RInv msg r -> r_done r = false ->
+  (forall single as_ref, latched (rd_question msg single as_ref r)) /\
+  latched (rd_skip_questions msg r) /\
+  latched (rd_marker msg r) /\ latched (rd_header_ref msg r) /\ (forall nk, latched (rd_header_n msg nk r)) /\
+  (forall mk, mk_ok r mk -> pos (r_cur r) = rdata_pos mk ->
+     latched (rd_skip_data mk r) /\ latched (rd_data_bytes msg mk r) /\
+     (forall ty, read_rdata msg ty (m_rdlen mk) <> None -> latched (rd_data msg ty mk r)) /\
+     (m_rtype mk = T_OPT -> latched (rd_opt mk r))) /\
+  latched (rd_header msg r) /\
+  (forall s, rd_seek msg s r = (r, Err (RecordsSectionOffsetUnknown s)) \/ latched (rd_seek msg s r)).
+Proof. exact error_latches_full. Qed.
 
 (* ---- the section tracker refines the linear pass ----
    A message announces nq questions and an/ns/ar records; its items (questions, then records, in
